@@ -100,6 +100,60 @@ Lemma den2_EBin e b n : den2 (EBin e b n) =
 Proof. destruct b; reflexivity. Qed.
 End Den.
 
+(* ---------- the documented grammar, stratified by precedence ----------
+     oexp ::= aexp | oexp "or" aexp          (lowest)
+     aexp ::= nexp | aexp "and" nexp
+     nexp ::= "not" nexp | leaf | "(" oexp ")"   (highest)                      *)
+Inductive oexp := OA (a : aexp) | OOr (o : oexp) (a : aexp)
+with aexp := AN (n : nexp) | AAnd (a : aexp) (n : nexp)
+with nexp := XNot (n : nexp) | XLeaf (l : leaf) | XParen (o : oexp).
+
+Scheme oexp_ind3 := Induction for oexp Sort Prop
+with aexp_ind3 := Induction for aexp Sort Prop
+with nexp_ind3 := Induction for nexp Sort Prop.
+Combined Scheme oan_ind from oexp_ind3, aexp_ind3, nexp_ind3.
+
+Fixpoint toks_o (o : oexp) : list token :=
+  match o with OA a => toks_a a | OOr o a => toks_o o ++ TOr :: toks_a a end
+with toks_a (a : aexp) : list token :=
+  match a with AN n => toks_x n | AAnd a n => toks_a a ++ TAnd :: toks_x n end
+with toks_x (n : nexp) : list token :=
+  match n with
+  | XNot n => TNot :: toks_x n
+  | XLeaf l => [TLeaf l]
+  | XParen o => TLp :: toks_o o ++ [TRp]
+  end.
+
+(* textbook denotation: parentheses > not > and > or *)
+Section DenO.
+Variable env : leaf -> bool.
+Fixpoint den_o (o : oexp) : bool :=
+  match o with OA a => den_a a | OOr o a => den_o o || den_a a end
+with den_a (a : aexp) : bool :=
+  match a with AN n => den_x n | AAnd a n => den_a a && den_x n end
+with den_x (n : nexp) : bool :=
+  match n with XNot n => negb (den_x n) | XLeaf l => env l | XParen o => den_o o end.
+End DenO.
+
+(* flattening into the left-nested chain: [pre] is the chain already built, to which the
+   conjunction is attached with "or" *)
+Fixpoint flat_o (o : oexp) : expr :=
+  match o with
+  | OA a => flat_a None a
+  | OOr o a => flat_a (Some (flat_o o)) a
+  end
+with flat_a (pre : option expr) (a : aexp) : expr :=
+  match a with
+  | AN n => match pre with None => E1 (flat_x n) | Some e => EBin e false (flat_x n) end
+  | AAnd a n => EBin (flat_a pre a) true (flat_x n)
+  end
+with flat_x (n : nexp) : nunit :=
+  match n with
+  | XNot n => NNot (flat_x n)
+  | XLeaf l => NLeaf l
+  | XParen o => NParen (flat_o o)
+  end.
+
 End Grammar.
 
 Ltac gsimp :=
